@@ -16,6 +16,8 @@ class FnContract:
         self.requires = kw.pop('requires', [])
         self.ensures = kw.pop('ensures', [])
         self.ensures_on_raise = kw.pop('ensures_on_raise', [])
+        self.ensures_local = kw.pop('ensures_local', [])   # postconditions proved for the function but not handed to
+                                                           # callers (quantifier in a negative position: costly to assume)
         self.raises = kw.pop('raises', [])          # list of exception class names
         self.modifies = kw.pop('modifies', [])      # ['scanner.pos', 'result[*]', ...]
         self.loops = kw.pop('loops', {})            # ordinal -> {anchor, invariant, decreases}
@@ -63,6 +65,7 @@ class Registry:
         self.rec_optional = set()
         self.by_real = {}      # (module, real class name) -> registry name
         self.globs = {}        # 'module:NAME' -> type string
+        self.glob_invariants = {}
         self.class_ids = {}
 
     def fn(self, key, **kw):
@@ -91,10 +94,12 @@ class Registry:
     def define(self, name, params, expr):
         self.defs[name] = (list(params), expr)
 
-    def glob(self, key, type_str_):
+    def glob(self, key, type_str_, invariant=()):
         """module-level table whose initialiser is not a literal (or that is deliberately kept abstract):
-        an opaque global object of the given type, never modified unless a frame obligation fails"""
+        an opaque global object of the given type, never modified unless a frame obligation fails.
+        `invariant`: facts about its (constant) content, read off the initialiser, assumed at function entry"""
         self.globs[key] = type_str_
+        self.glob_invariants[key] = list(invariant)
 
     def class_name(self, module, real):
         "registry name of the class `real` defined in `module` (None if it has no contract)"
